@@ -52,32 +52,45 @@ def confirm(mid):
     return out
 
 
-def run(mid, tier="quick"):
+def run(mid, tier="quick", inplace=False):
+    """inplace=True: the brief's procedure (git -C /repo apply … checkout).  Default: the same patch in a scratch worktree and
+    VERIF_REPO pointing at it, so that nothing else using /repo at the same time (baseline builds, other agents) is disturbed."""
     d = os.path.join(SEED, mid)
     meta = json.load(open(os.path.join(d, "meta.json")))
     props = meta["property"] if isinstance(meta["property"], list) else [meta["property"]]
     props = list(dict.fromkeys(props + meta.get("also_check", [])))
-    if sh("git -C /repo status --porcelain").stdout.strip():
-        raise SystemExit("/repo is not clean")
-    r = sh(f"git -C /repo apply {os.path.join(d, 'patch.diff')}")
+    env = dict(os.environ)
+    wt = f"/tmp/sr-{mid}"
+    if inplace:
+        if sh("git -C /repo status --porcelain").stdout.strip():
+            raise SystemExit("/repo is not clean")
+        r = sh(f"git -C /repo apply {os.path.join(d, 'patch.diff')}")
+    else:
+        sh(f"git -C /repo worktree remove --force {wt}")
+        r = sh(f"git -C /repo worktree add {wt} HEAD && git -C {wt} apply {os.path.join(d, 'patch.diff')}")
+        env["VERIF_REPO"] = wt
     if r.returncode:
         raise SystemExit("patch does not apply: " + r.stderr)
     res = {}
     try:
         for p in props:
             t0 = time.time()
-            c = subprocess.run([os.path.join(ROOT, "check"), p, "--tier", tier], capture_output=True, text=True, cwd=ROOT)
+            c = subprocess.run([os.path.join(ROOT, "check"), p, "--tier", tier], capture_output=True, text=True, cwd=ROOT, env=env)
             vio = [l for l in c.stdout.splitlines() if l.startswith("VIOLATION")]
             res[p] = {"exit": c.returncode, "violations": vio[:3], "caught": c.returncode == 1 and bool(vio),
                       "no_failing_input": any("no-failing-input-found" in v for v in vio) and not any("no-failing-input-found" not in v for v in vio),
                       "wall_s": round(time.time() - t0, 1), "stderr_tail": c.stderr[-300:] if c.returncode == 2 else ""}
     finally:
-        sh("git -C /repo checkout -- .")
+        if inplace:
+            sh("git -C /repo checkout -- .")
+        else:
+            sh(f"git -C /repo worktree remove --force {wt}")
         sh(f"rm -rf {os.path.join(ROOT, 'replays')}")
         # restore generated Lean tables and evidence to the clean-tree state
         sh(f"cd {ROOT} && {PY} tools/regen.py")
         sh(f"cd {ROOT} && git checkout -- evidence lean/Verif/Gen 2>/dev/null")
-    json.dump({"tier": tier, "results": res}, open(os.path.join(d, "result.json"), "w"), indent=1)
+    json.dump({"tier": tier, "mode": "git -C /repo apply" if inplace else "scratch worktree + VERIF_REPO", "results": res},
+              open(os.path.join(d, "result.json"), "w"), indent=1)
     return res
 
 
